@@ -14,7 +14,9 @@ MANIFEST = dict(
          "under passthru, nothing else, in input order, with a break exactly at each gap, 1-based line numbers, absolute "
          "offsets, and the input length at finish; stop-on-nonmatch = the same on the input truncated after the first non-result line "
          "following a result (stop_on_nonmatch_is_truncation). Model = code = reference correspondence on generated cases ties the model to "
-         "core.rs/glue.rs/lines.rs on every run. D10 fixed.",
+         "core.rs/glue.rs/lines.rs on every run; the line terminator is a parameter throughout (theorems: every byte and CRLF; "
+         "generated: NUL, ';', 0xFF, ... with line feeds inside the records, through the slice and through the real roll buffer "
+         "with capacity 1..8; rg --null-data with context over files > 64 KiB = grep reference). D10 fixed.",
     note="trusted: Coq kernel, extraction (ExtrOcamlBasic only), driver, harness; binary detection None in the "
          "theorems (binary modes are C14's); the matcher is universally quantified, its candidate contract is a hypothesis "
          "(discharged for regex matchers by C11's theorems and correspondence)",
@@ -39,6 +41,7 @@ def features(case, events):
     if c["stop_on_nonmatch"]:
         f.append("stop")
     f.append("fast" if case["lt_mode"] and not c["passthru"] else "slow")
+    f.append(sg.term_name(c))
     return f
 
 
@@ -79,6 +82,7 @@ def run(ctx):
         if a != ro[i]:
             ctx.violation("the incremental reader with a small roll buffer delivers other results than the grep reference",
                           dict(kind=201, line=l, case=sg.describe(cases[i]), reader=a, ref=ro[i]))
+    term_feat = terminators(ctx, c02)
     mlc = [sg.gen_case(rng, multi_line=True) for _ in range(ctx.count(300))]
     mll = [sg.case_val(c) for c in mlc]
     # context, separators, numbering and offsets of a multi-line search obey the same model (reference ml_ref)
@@ -106,8 +110,48 @@ def run(ctx):
             ctx.violation("search_slice differs from the grep reference model",
                           dict(kind=302, line=line, case=sg.describe(case), code=c, ref=r))
     cli_separators(ctx)
+    c02.cli_null_data(ctx, "C03")
+    for k, v in term_feat.items():
+        feat[k] = feat.get(k, 0) + v
     ctx.cov["features"] = feat
     ctx.cov["rule"] = "random searcher configuration x scripted matcher x line-structured input; non-trivial = has a match and more than 3 events"
+
+
+def terminators(ctx, c02):
+    """the line terminator is a parameter of the searcher: NUL (--null-data), ';', 0xFF, ... with records that contain
+    `\n` and `\r` as ordinary bytes, non-zero context sizes, roll buffers of capacity 1..8 and scripted read histories.
+    The incremental reader (kind 201, real roll buffer) must deliver the grep reference (302) = the slice run (301) =
+    the model of the reader (201): what Core::roll retains at a buffer switch is counted in TERMINATORS."""
+    rng = ctx.rng
+    cases = [sg.gen_term_case(rng) for _ in range(ctx.count(700))]
+    sl = [sg.case_val(c) for c in cases]
+    rl = []
+    for c in cases:
+        cap = rng.randint(1, 8)
+        rl.append(c02.reader_line(c, None, cap, None, c02.gen_hist(rng, len(c["input"]), cap)))
+    ref, slc = vlib.model(302, sl), vlib.code(301, sl)
+    rdr, rdm = vlib.code(201, rl), vlib.model(201, rl)
+    feat = {}
+    for c, l, sline, s_, r, a, m in zip(cases, rl, sl, slc, ref, rdr, rdm):
+        evs = parse_val(a)[1] if a.startswith("(0") else []
+        kinds = set(e[0] for e in evs)
+        rolled = len(c["input"]) > 8
+        ctx.note_case(l, rolled and 1 in kinds and 2 in kinds)
+        for f in [sg.term_name(c["cfg"]) + "/reader"] + (["reader-ctx-across-roll"] if rolled and 1 in kinds and 2 in kinds else []):
+            feat[f] = feat.get(f, 0) + 1
+        if a.startswith("(9"):
+            ctx.violation("terminator case not run by the reader strategy (no silent skips)", dict(kind=201, line=l, case=sg.describe(c)))
+            continue
+        if a != r:
+            ctx.violation("the incremental reader (small roll buffer, terminator %s, records with embedded line feeds) delivers "
+                          "other results than the grep reference" % sg.term_name(c["cfg"]),
+                          dict(kind=201, line=l, case=sg.describe(c), reader=a, ref=r, slice=s_, model=m))
+        elif a != m:
+            ctx.violation("search_reader: model and code disagree", dict(kind=201, line=l, case=sg.describe(c), model=m, code=a), nfi=True)
+        if s_ != r:
+            ctx.violation("search_slice differs from the grep reference model",
+                          dict(kind=302, line=sline, case=sg.describe(c), code=s_, ref=r))
+    return feat
 
 
 def cli_separators(ctx):
@@ -145,6 +189,14 @@ def cli_separators(ctx):
 
 def replay(ctx, data):
     line = data["replay"]["line"]
+    if data["replay"].get("kind") == 201:
+        # a reader case (cfg matcher input reply cap pol hist): the first four fields are the slice case
+        c, m = vlib.code(201, [line])[0], vlib.model(201, [line])[0]
+        r = data["replay"].get("ref")
+        print("code :", c, "\nmodel:", m, "\nref  :", r)
+        if c != m or (r is not None and c != r):
+            ctx.violation("replayed reader case still disagrees", data["replay"])
+        return
     c = vlib.code(301, [line])[0]
     m = vlib.model(301, [line])[0]
     r = vlib.model(302, [line])[0]
